@@ -30,7 +30,7 @@ RULE = (
     "shapes x margins 0..12 x {spaces,tabs} x {<% %>,<%! %>} x LF/CRLF. distinct = by source text; "
     "non-trivial = re-emission produced text / block bound at least one inner-scope name / margin>0."
 )
-RULE += ' added since: shadowed locals, reads printed after a block, hash / backslash / whitespace-only-line shapes inside strings, comprehensions inside functions, unhashable defaults, keyword-only end-to-end forms. names read after * / ** items in dict, list, set displays and calls.'
+RULE += ' added since: shadowed locals, reads printed after a block, hash / backslash / whitespace-only-line shapes inside strings, comprehensions inside functions, unhashable defaults, keyword-only end-to-end forms. names read after * / ** items in dict, list, set displays and calls. markup with both kinds of quotes after every margin block.'
 ASSUMPTIONS = [
     "CPython's ast, symtable, eval and exec are the reference semantics",
     "blocks never read a name before binding it in the same scope (Mako documents that case separately)",
@@ -555,7 +555,11 @@ def run_margin(case, res):
     m = ch * margin
     body = eol.join((m + ln) if (flag and ln) else ln for ln, flag in lines)
     opener = "<%!" if module else "<%"
-    text = opener + eol + body + eol + "%>[" + ", ".join("${repr(%s)}" % b for b in bound) + "]"
+    # (markup with both kinds of quotes follows the block: a literal of the block that the lexer does not skip as one
+    # unit would find its "closing" quote there)
+    tail = " <a title=\"t\">it's \"q\"</a>"
+    text = opener + eol + body + eol + "%>[" + ", ".join("${repr(%s)}" % b for b in bound) + "]" + tail
+    exp += tail
     res.evaluations += 1
     fid = "C19/printer-triple-quote-count" if printer_quote_count_misled(base) else None
     if fid is None and comment_ends_in_backslash(base):
